@@ -209,6 +209,12 @@ Fixpoint p_run (with_remove : bool) (st : pst) (ops : list (N * list N)) : list 
   | op :: t => let '(st', o) := p_step with_remove st op in o :: p_run with_remove st' t
   end.
 
+Fixpoint p_exec (with_remove : bool) (st : pst) (ops : list (N * list N)) : pst :=
+  match ops with
+  | [] => st
+  | op :: t => p_exec with_remove (fst (p_step with_remove st op)) t
+  end.
+
 (* ------------------------------------------------------------------ LOUDS storage as written *)
 (* contains_louds_internal: pos-based scan over [len][bytes] records *)
 Fixpoint louds_scan (fuel : nat) (data key : list N) : bool :=
